@@ -1003,7 +1003,26 @@ func (c *Ctx) genTree(cfg ldGenCfg) ldCase {
 		if i == 0 {
 			g.f.Base = "Taskfile.yml"
 		} else {
-			for {
+			twin := false
+			if i > 1 && c.Rng.Intn(3) == 0 {
+				// a sibling whose path differs from an earlier file's only in letter case (same directory):
+				// a merge order keyed case-insensitively would tie on the two
+				pb := gf[i-1].f.Base
+				fl := []rune(pb)
+				if fl[0] >= 'a' && fl[0] <= 'z' {
+					fl[0] -= 32
+				} else if fl[0] >= 'A' && fl[0] <= 'Z' {
+					fl[0] += 32
+				}
+				if b := string(fl); !usedBase[b] {
+					usedBase[b] = true
+					g.f.Base = b
+					g.f.Dir = append([]int{}, gf[i-1].f.Dir...)
+					twin = true
+					c.Hit("case-twin-paths")
+				}
+			}
+			for !twin {
 				b := fmt.Sprintf("%c%c.yml", 'A'+rune(c.Rng.Intn(26))+rune(32*c.Rng.Intn(2)), 'a'+rune(c.Rng.Intn(26)))
 				if !usedBase[b] {
 					usedBase[b] = true
@@ -1011,11 +1030,13 @@ func (c *Ctx) genTree(cfg ldGenCfg) ldCase {
 					break
 				}
 			}
-			switch c.Rng.Intn(4) {
-			case 0:
-				g.f.Dir = []int{1 + c.Rng.Intn(3)}
-			case 1:
-				g.f.Dir = []int{1 + c.Rng.Intn(3), 1 + c.Rng.Intn(3)}
+			if !twin {
+				switch c.Rng.Intn(4) {
+				case 0:
+					g.f.Dir = []int{1 + c.Rng.Intn(3)}
+				case 1:
+					g.f.Dir = []int{1 + c.Rng.Intn(3), 1 + c.Rng.Intn(3)}
+				}
 			}
 		}
 		g.f.Vars = c.genVars(3)
